@@ -100,9 +100,13 @@ def run_proc(argv, cwd=None, env=None, timeout=10, mem_mb=4096, stdin=None):
     if env:
         e.update(env)
     t0 = time.time()
+    full = [str(a) for a in argv]
+    if mem_mb:
+        full = ["prlimit", f"--as={mem_mb * 1024 * 1024}", "--core=0"] + full
     try:
-        p = subprocess.Popen([str(a) for a in argv], cwd=cwd, env=e, stdin=subprocess.DEVNULL if stdin is None else subprocess.PIPE,
-                             stdout=subprocess.PIPE, stderr=subprocess.PIPE, preexec_fn=_limits(mem_mb))
+        # no preexec_fn: lets CPython use vfork/posix_spawn (a fork of this large process costs ~10 ms)
+        p = subprocess.Popen(full, cwd=cwd, env=e, stdin=subprocess.DEVNULL if stdin is None else subprocess.PIPE,
+                             stdout=subprocess.PIPE, stderr=subprocess.PIPE, start_new_session=True)
     except OSError as ex:
         return dict(exit=-1, sig=0, out="", err=str(ex), timeout=False, wall=0.0)
     try:
